@@ -9,7 +9,7 @@ for c in camps:
     if not os.path.exists(p):
         continue
     for line in open(p):
-        m = re.match(r"(C\d\d)([a-d]) check_exit=(\d+) demo_clean=(\d+) demo_patched=(\d+) tests='([^']*)' (\d+) violations; *(.*)", line)
+        m = re.match(r"(C\d\d)([a-z]) check_exit=(\d+) demo_clean=(\d+) demo_patched=(\d+) tests='([^']*)' (\d+) violations; *(.*)", line)
         if m:
             res[(m.group(1), m.group(2))] = dict(check_exit=int(m.group(3)), demo_clean=int(m.group(4)), demo_patched=int(m.group(5)),
                                                  tests=m.group(6), violations=int(m.group(7)), first=m.group(8).strip()[:300], campaign=c)
